@@ -170,6 +170,17 @@ def run(ck):
             ck.violation("scalar:%s" % t3[0]["t"], "scalar round trip changed %s -> %s -> %s" % tuple(json.dumps(x) for x in t3), {"text": text, "trip": t3})
         else:
             ck.violation("judge:" + code, "record %d rejected: %s" % (i + 1, code), {"text": text})
+    # "marked nodes differ only by carrying spans, and their equality ignores the spans": constructed pairs of nodes of the four
+    # types -- the same data under other spans, other data under the same span, borrowed against owned -- with the real == and
+    # the real hashes, judged by YNodeApi!EqHashLaw (== is equality of the data; equal nodes hash equally)
+    eqf = ck.wd("c19_eq.ndjson")
+    se = vh_json(["c20", "--out", eqf, "--n", "2000" if ck.tier != "thorough" else "30000", "--hash-only", "1"])
+    ck.evaluations += se["evaluations"]
+    lines2, rej2 = judge_chunks(ck, "Trace_NodeApi", eqf)
+    ck.extra["equality_pairs_judged"] = len(lines2)
+    for (i, code, g) in rej2:
+        r = json.loads(lines2[i])
+        ck.violation("eq:%s:eq=%s" % (r["l"][0], r.get("eq")), "%s: %s == %s is %s (hashes %s / %s)" % (r["l"], json.dumps(r["x"])[:200], json.dumps(r["y"])[:200], r.get("eq"), r.get("hx"), r.get("hy")), r)
     mine = []
     for ln in lines:
         r = json.loads(ln)
